@@ -34,7 +34,9 @@ class CutDomain(Domain):
     def __call__(self, **data):
         domain_a = self.domain_a(**data)
         domain_b = self.domain_b(**data)
-        return CutDomain(domain_a, domain_b, contained=self.contained)
+        return self._evaluate_user_volume(
+            CutDomain(domain_a, domain_b, contained=self.contained), **data
+        )
 
     def _contains(self, points, params=Points.empty()):
         in_a = self.domain_a._contains(points, params)
